@@ -627,7 +627,7 @@ def qorder_profile(env):
 
 def smtstr_profile(env):
     """strings whose SMT-LIB spelling needs escaping (outside the HR fragment)"""
-    return P.str_profile(env, strs=("", 'a"b', '""', "a b", "|", "\\x", ";", "a\\\\b", "\\", "\\u{41}", "\\u0041"), ints=(0, -1))
+    return P.str_profile(env, strs=("", 'a"b', '""', "a b", "|", "\\x", ";", "a\\\\b", "\\", "\\u{41}", "\\u0041", "caf\u00e9", "a\nb", "\t", "\u03b1"), ints=(0, -1))
 
 
 def _names(*ns):
